@@ -12,11 +12,30 @@ def run(filter_=None, repo='/repo'):
     crate = os.path.join(VERIF, 'kani', 'pnet_axioms')
     shutil.copy(os.path.join(repo, 'Cargo.lock'), os.path.join(crate, 'Cargo.lock'))
     env = dict(os.environ, CARGO_NET_OFFLINE='true', CARGO_TARGET_DIR=os.path.join(VERIF, 'build', 'kani_target'))
-    cmd = ['cargo', 'kani', '--output-format', 'terse']
-    if filter_: cmd += ['--harness', filter_]
+    base = ['cargo', 'kani', '--output-format', 'terse']
+    table_ = json.load(open(os.path.join(crate, 'harnesses.json')))
+    if filter_:
+        groups = [filter_]
+    else:
+        # one cargo-kani process per packet module, one per checksum harness (those dominate the run time)
+        mods = sorted(set(h['harness'].split('_')[0] for h in table_ if not h['harness'].endswith('_checksum') and h['harness'] != 'pseudo6_swap'))
+        groups = ['%s_axioms::' % m for m in mods] + ['cksum_axioms::' + h['harness'] for h in table_ if h['harness'].endswith('_checksum') or h['harness'] == 'pseudo6_swap']
     t0 = time.time()
-    p = subprocess.run(cmd, cwd=crate, env=env, stdout=subprocess.PIPE, stderr=subprocess.STDOUT)
-    out = p.stdout.decode('utf-8', 'replace')
+    # build once (the other processes then only wait for the lock and reuse the artefacts)
+    first = subprocess.run(base + ['--harness', groups[0]], cwd=crate, env=env, stdout=subprocess.PIPE, stderr=subprocess.STDOUT)
+    outs = [first.stdout.decode('utf-8', 'replace')]
+    rcs = [first.returncode]
+    from concurrent.futures import ThreadPoolExecutor
+    def one(g):
+        q = subprocess.run(base + ['--harness', g], cwd=crate, env=env, stdout=subprocess.PIPE, stderr=subprocess.STDOUT)
+        return q.returncode, q.stdout.decode('utf-8', 'replace')
+    with ThreadPoolExecutor(max_workers=8) as ex:
+        for rc_, o_ in ex.map(one, groups[1:]):
+            rcs.append(rc_); outs.append(o_)
+    out = '\n'.join(outs)
+    cmd = base + ['--harness', '<group>  (groups: %s)' % ' '.join(groups)]
+    class P: pass
+    p = P(); p.returncode = max(rcs)
     table = {h['harness']: h for h in json.load(open(os.path.join(crate, 'harnesses.json')))}
     res = []
     cur = None
@@ -33,7 +52,7 @@ def run(filter_=None, repo='/repo'):
         if mo: cur['time_s'] = float(mo.group(1))
         mo = re.match(r'Failed Checks: (.*)', l)
         if mo: cur['failed_checks'].append(mo.group(1))
-    ok = p.returncode == 0 and res and all(r['status'] == 'SUCCESSFUL' for r in res)
+    ok = p.returncode == 0 and len(res) >= (1 if filter_ else len(table)) and all(r['status'] == 'SUCCESSFUL' for r in res)
     summary = {'ok': bool(ok), 'kani_exit': p.returncode, 'harnesses': len(res), 'successful': sum(1 for r in res if r['status'] == 'SUCCESSFUL'),
                'complete': sum(1 for r in res if r.get('kind') == 'complete' and r['status'] == 'SUCCESSFUL'),
                'bounded': sum(1 for r in res if r.get('kind') == 'bounded' and r['status'] == 'SUCCESSFUL'),
